@@ -35,6 +35,8 @@ Faults(f) ==
   \cup UNION {{[kind |-> "kl", j |-> j, v |-> v] : v \in Vals(f.items[j].kl, f) \ {f.items[j].kl}} : j \in 1..Len(f.items)}
   \cup UNION {{[kind |-> "as", j |-> j, v |-> v] : v \in Vals(f.items[j].as, f) \ {f.items[j].as}} : j \in 1..Len(f.items)}
   \cup UNION {{[kind |-> "al", j |-> j, v |-> v] : v \in Vals(f.items[j].al, f) \ {f.items[j].al}} : j \in 1..Len(f.items)}
+  \* a changed key byte: the key's content moves to any other place in the order (or collides with another key)
+  \cup UNION {{[kind |-> "keybyte", j |-> j, v |-> v] : v \in (1..(2 * Len(f.items) + 1)) \ {2 * j}} : j \in 1..Len(f.items)}
 ApplyFault(f, c) ==
   CASE c.kind = "prefix" -> [f EXCEPT !.len = c.len]
     [] c.kind = "magic" -> [f EXCEPT !.magic = 0]
@@ -46,6 +48,7 @@ ApplyFault(f, c) ==
     [] c.kind = "kl" -> [f EXCEPT !.items[c.j].kl = c.v]
     [] c.kind = "as" -> [f EXCEPT !.items[c.j].as = c.v]
     [] c.kind = "al" -> [f EXCEPT !.items[c.j].al = c.v]
+    [] c.kind = "keybyte" -> [f EXCEPT !.items[c.j].kord = c.v]
     [] c.kind = "none" -> f
 Init == spec \in Specs /\ fault = [kind |-> "none"]
 Next == fault.kind = "none" /\ fault' \in Faults(Write(spec)) /\ UNCHANGED spec
@@ -69,7 +72,9 @@ SlackAbsorbed == fault.kind = "al" /\ SameExtent(fault.j, [F0.items[fault.j] EXC
 \* the last key may grow into / shrink within the alignment padding between the keys and the first array
 KeySlack == fault.kind = "kl" /\ fault.j = Len(F0.items) /\
     LET it == F0.items[fault.j] IN ~GtU(fault.v, SubU(F0.fsize, it.ks)) /\ AlignU(AddU(it.ks, fault.v)) = AlignU(AddU(it.ks, it.kl))
-BlindSpot == SameSizeType \/ SlackAbsorbed \/ KeySlack
+\* a key whose changed content still sorts between its neighbours is a different key the container cannot tell from the original
+KeyOrderKept == fault.kind = "keybyte" /\ fault.v \in {2 * fault.j - 1, 2 * fault.j + 1}
+BlindSpot == SameSizeType \/ SlackAbsorbed \/ KeySlack \/ KeyOrderKept
 OnlyKnownBlindSpots == (fault.kind \notin {"none", "prefix"} /\ Verdict = "OK") => BlindSpot
 \* ... and conversely those are indeed accepted by the container (so the layer above must catch them)
 BlindSpotsAreReal == BlindSpot => Verdict = "OK"
